@@ -10,6 +10,7 @@ CONSTANTS
   MaxFaults = 0
   MaxRestarts = 0
   MaxProbes = 0
+  MaxHolds = 1
   MaxNoops = 2
   WithSettle = FALSE
   PauseAtomic = TRUE
@@ -18,4 +19,5 @@ CONSTANTS
   PollerExits = TRUE
   SharedKept = TRUE
   JoinedStopped = TRUE
+  LateRegisterChecked = TRUE
   BarrierExits = FALSE
